@@ -24,7 +24,7 @@ SRC = os.environ.get('BACPYPES_SRC', '/repo/py34')
 PROPS = ['C04', 'C05', 'C06', 'C10', 'C11', 'C12', 'C13', 'C14', 'C15', 'C16', 'C17', 'C19', 'C20']
 
 GEN = {
-    'C04': ['gen_desc'], 'C05': ['gen_desc', 'gen_single_fault_desc'], 'C06': ['gen_desc', 'gen_cyclic', 'gen_lossy'], 'C10': ['gen_batch'],
+    'C04': ['gen_desc'], 'C05': ['gen_desc', 'gen_single_fault_desc'], 'C06': ['gen_desc', 'gen_cyclic', 'gen_lossy'], 'C10': ['gen_batch', 'gen_conv', 'gen_dcc'],
     'C11': ['gen_desc'], 'C12': ['gen_desc'], 'C13': ['gen_desc'], 'C14': ['gen_desc'], 'C15': ['gen_desc'], 'C16': ['gen_desc'],
     'C17': ['gen_desc'], 'C19': ['gen_cache_desc', 'gen_msg_desc'], 'C20': ['gen_desc'],
 }
